@@ -129,6 +129,16 @@ def c04_jobs(tier, seed):
     return j
 
 
+def c07_jobs(tier, seed):
+    q = tier == "quick"
+    st = 2 if q else 1
+    j = []
+    j += [Job("dbg", "w_proc", "c07 --part owner --nshards 4 --shard %d --stride %d --seed %d" % (i, st, seed), timeout=600, engine="ptrace-stepper") for i in range(4)]
+    j += [Job("dbg", "w_proc", "c07 --part observer --nshards 4 --shard %d --stride %d --seed %d" % (i, 1, seed), timeout=600, engine="ptrace-stepper") for i in range(4)]
+    j += [Job("dbg", "w_proc", "c07 --part cleaners --nshards 8 --shard %d --stride %d --seed %d --cleaner-rounds %d" % (i, st, seed, 3 if q else 20), timeout=900, engine="ptrace-stepper") for i in range(8)]
+    return j
+
+
 PROPS = {
     "C09": {
         "level": "exploration",
@@ -212,5 +222,13 @@ PROPS = {
         "rule": "for each scenario (node create/drop; publish-subscribe, event, request-response, blackboard: service + ports + traffic + orderly shutdown) the child process is killed before each of its system-call stops (file, descriptor, memory-map, lock calls; thorough: every stop and additionally after every shared-memory atomic write; quick: every 3rd stop, offset by the seed); a separate survivor process then lists nodes, removes stale resources, lists again, checks the residue (directory + /dev/shm listing by name), re-creates the same service name with different settings and exchanges data, checks the residue again. Non-trivial = a crash point at which at least one file or shm object of the child existed; distinct = distinct (scenario, stop index, system call, object kind). exhaustive (thorough) means: every stop of the listed classes in the listed scenarios.",
         "assumptions": ["process death is injected with SIGKILL at system-call entry (and after atomic writes with markers); not machine crashes, not torn single system calls", "a survivor hang counts only when it reproduces (watchdog 6 s, twice)", "crash points are named by (phase, system call, object kind), known findings are keyed on (scenario pattern, phase, outcome class)"],
         "floor": (100, 30),
+    },
+    "C07": {
+        "level": "fault_enumeration",
+        "jobs": c07_jobs,
+        "exhaustive": lambda tier: tier == "thorough",
+        "rule": "(a) the monitored process is held (alive, stopped by ptrace) before each system-call stop of node create + node drop while an observer process calls Node::list: the verdict must never be Dead; (b) the observer is held before each stop of its own Node::list while the live owner performs its complete node drop and is then released: the verdict must not be Dead; (c) 2-4 cleaner processes are released at once on a node whose process was killed: exactly one cleanup succeeds, the others get the documented refusals, nothing remains; (d) a cleaner is killed before each of its own stops, a second cleaner must then complete the cleanup. Quick samples every 2nd stop of (a) and (d). Non-trivial = a query/trial in which the node's files existed; distinct = distinct (sweep, stop index, system call, object kind).",
+        "assumptions": ["file-lock based monitoring (ipc::Service) only; process-local monitoring has no crashes by definition", "a held process is stopped by ptrace, i.e. alive and not scheduled; kills are SIGKILL at system-call entry"],
+        "floor": (60, 30),
     },
 }
